@@ -225,7 +225,7 @@ class DeepSearch(dict):
             str_item = str(item)
             if (self.match_string and str_item == new_parent_cased) or\
                (not self.match_string and str_item in new_parent_cased) or\
-               (self.use_regexp and item.search(new_parent_cased)):
+               (self.use_regexp and isinstance(item.pattern, str) and item.search(new_parent_cased)):
                 self.__report(
                     report_key='matched_paths',
                     key=new_parent,
